@@ -1,7 +1,8 @@
 (* C02 - Islands are exactly the seeded, flood-thresholded 8-connected pixel groups.
    Statements only; proofs in Proofs/IslandProofs.v; leaves regenerated into Gen/Islands.v. *)
 From Coq Require Import ZArith Bool List Relations.
-From Aegean Require Import Gen.Islands Lib.Graph Model.IslandModel Proofs.IslandProofs.
+From Aegean Require Import Gen.Islands Gen.IslandBox Lib.Graph Model.IslandModel Model.IslandBox Proofs.IslandProofs
+  Proofs.IslandBoxProofs.
 Import ListNotations.
 Open Scope Z_scope.
 
@@ -50,6 +51,20 @@ Theorem C02_bbox_tight : forall (I : list pix) r0 r1 c0 c1, I <> [] -> bbox I = 
   (exists p, In p I /\ fst p = r0) /\ (exists p, In p I /\ fst p = r1 - 1) /\
   (exists p, In p I /\ snd p = c0) /\ (exists p, In p I /\ snd p = c1 - 1).
 Proof. exact bbox_tight. Qed.
+
+(* the box an island REPORTS is computed by PixelIsland.calc_bounding_box (body regenerated into Gen/IslandBox.v) from the
+   island's own pixels inside the find_objects cut-out and the cut-out's start; it is that same tight box, for every
+   island of every image - and for any cut-out start whatever, because the offsets cancel *)
+Theorem C02_reported_box_is_tight : forall (I : list pix) r0 r1 c0 c1, I <> [] -> reported_box I = (r0, r1, c0, c1) ->
+  (forall p, In p I -> r0 <= fst p < r1 /\ c0 <= snd p < c1) /\
+  (exists p, In p I /\ fst p = r0) /\ (exists p, In p I /\ fst p = r1 - 1) /\
+  (exists p, In p I /\ snd p = c0) /\ (exists p, In p I /\ snd p = c1 - 1).
+Proof. exact reported_box_tight. Qed.
+Theorem C02_calc_bounding_box_any_cutout : forall (I : list pix) r0 c0, I <> [] ->
+  calc_bounding_box (rel_pixels I r0 c0) r0 c0 = bbox I.
+Proof. exact calc_box_any_cutout. Qed.
+Theorem C02_every_island_reports_its_box : forall img fl sd I, In I (islands img fl sd) -> reported_box I = bbox I.
+Proof. exact island_reports_tight_box. Qed.
 
 (* inside the box the mask leaves exactly the island's own pixels unblanked *)
 Theorem C02_mask_exact : forall img fl sd I p, rms_pos img -> clip_ok fl -> In I (islands img fl sd) ->
@@ -103,6 +118,11 @@ Proof. vm_compute. reflexivity. Qed.
 Example ex_obs : obs ex_img ex_fl ex_sd =
   [((0, 2, 0, 2), ex_A, [(0, 0); (1, 1)]); ((3, 4, 1, 3), ex_C, [(3, 1); (3, 2)])].
 Proof. vm_compute. reflexivity. Qed.
+Example ex_reported_boxes : map reported_box (islands ex_img ex_fl ex_sd) = [(0, 2, 0, 2); (3, 4, 1, 3)].
+Proof. vm_compute. reflexivity. Qed.
+(* a non-square island in a cut-out that starts elsewhere: rows 5..6, columns 2..5 *)
+Example ex_calc_box : calc_bounding_box (rel_pixels [(5, 2); (6, 5); (5, 3)] 4 1) 4 1 = (5, 7, 2, 6).
+Proof. vm_compute. reflexivity. Qed.
 Example ex_nan_pixel : get ex_img (0, 2) = Some ex_nan /\ flood_ok ex_img ex_fl (0, 2) = false /\
                        adj (0, 2) (1, 1) = true.
 Proof. vm_compute. auto. Qed.
@@ -146,6 +166,9 @@ Print Assumptions C02_islands_sound.
 Print Assumptions C02_islands_complete.
 Print Assumptions C02_disjoint.
 Print Assumptions C02_bbox_tight.
+Print Assumptions C02_reported_box_is_tight.
+Print Assumptions C02_calc_bounding_box_any_cutout.
+Print Assumptions C02_every_island_reports_its_box.
 Print Assumptions C02_mask_exact.
 Print Assumptions C02_no_blank.
 Print Assumptions C02_seed_monotone.
